@@ -112,3 +112,57 @@ func VerifC19_EtagSwitch() {
 		rt.Assert(resp.n() == "fresh", "switch/etag-on/200-answer-is-not-the-body")
 	}
 }
+
+// VerifC19_DecodedNumbers: the lemma the controllers' "is the status already
+// what the hook wants" comparisons stand on (decorator: DeepEqual of the stored
+// status and the answer's status, C16; composite: the same inside
+// updateParentStatus, C11) - in every unmarshal mode, through the plain and the
+// ETag executor, for a fresh 200 and for a 304 answered from the cache, the
+// integral numbers of the body arrive as int64 with their exact value (what the
+// API server's own decoder produces for the stored object), never as float64.
+func VerifC19_DecodedNumbers() {
+	mode, _ := verifMode(rt.Choice("unmarshal-mode", 3))
+	modeName := []string{"default", "loose", "strict"}[0]
+	if mode != nil {
+		modeName = string(*mode)
+	}
+	url := "http://hook.ns/sync"
+	wh := &v1alpha1.Webhook{URL: &url, ResponseUnmarshallMode: mode}
+	etag := rt.Bool("etag")
+	if etag {
+		on := true
+		wh.Etag = &v1alpha1.WebhookEtagConfig{Enabled: &on}
+	}
+	we, err := NewWebhookExecutor(wh, "cc", common.DecoratorController, common.SyncHook)
+	rt.Assert(err == nil && we != nil, "numbers/executor-not-built")
+	if err != nil || we == nil {
+		return
+	}
+	ex, ok := we.(*webhookExecutor)
+	if !ok {
+		rt.Assert(false, "numbers/executor-type")
+		return
+	}
+	client := &verifClient{resp: &http.Response{StatusCode: 200, Header: http.Header{"Etag": []string{"t1"}}, Body: &verifBody{data: []byte(verifBodyFresh)}}}
+	ex.client = client
+	var first verifResp
+	err1 := ex.Call(&verifReq{Parent: verifParent("p")}, &first)
+	rt.Assert(err1 == nil, "numbers/200-rejected")
+	if err1 != nil {
+		return
+	}
+	rt.Cover("numbers/fresh")
+	verifNumbersExact(&first, "numbers/"+modeName+"/fresh")
+	if !etag {
+		return
+	}
+	client.resp = &http.Response{StatusCode: 304, Header: http.Header{"Etag": []string{"t1"}}, Body: &verifBody{data: []byte{}}}
+	var second verifResp
+	err2 := ex.Call(&verifReq{Parent: verifParent("p")}, &second)
+	rt.Assert(err2 == nil, "numbers/valid-304-rejected")
+	if err2 != nil {
+		return
+	}
+	rt.Cover("numbers/from-cache")
+	verifNumbersExact(&second, "numbers/"+modeName+"/from-cache")
+}
